@@ -28,6 +28,21 @@ type hyRun struct {
 	metaIdx    comet.MetadataIndex
 	docs       map[int]bool
 	everRemoved []int
+	vecKind    string // "flat" or "ivf" (two clusters, searched with nprobes = nlist: exact, exercises the parameter pass-through)
+}
+
+func (r *hyRun) newVec() comet.VectorIndex {
+	if r.vecKind == "ivf" {
+		idx, _ := comet.NewIVFIndex(1, 2, comet.L2Squared)
+		tr := []comet.VectorNode{}
+		for i, p := range []float32{0, 1, 2, 3, 8, 17, 18, 19, 22, 23} {
+			tr = append(tr, *comet.NewVectorNodeWithID(uint32(900+i), []float32{p}))
+		}
+		idx.Train(tr)
+		return idx
+	}
+	f, _ := comet.NewFlatIndex(1, comet.L2Squared)
+	return f
 }
 
 var hyWords = []string{"aa", "bb", "cc", "dd"}
@@ -37,8 +52,7 @@ func (r *hyRun) reset(v, t, m bool) {
 	r.v, r.tx, r.m = v, t, m
 	r.vecIdx, r.txtIdx, r.metaIdx = nil, nil, nil
 	if v {
-		f, _ := comet.NewFlatIndex(1, comet.L2Squared)
-		r.vecIdx = f
+		r.vecIdx = r.newVec()
 	}
 	if t {
 		r.txtIdx = comet.NewBM25SearchIndex()
@@ -135,8 +149,11 @@ func (r *hyRun) reload() {
 		var nt comet.TextIndex
 		var nm comet.MetadataIndex
 		if r.v {
-			f, _ := comet.NewFlatIndex(1, comet.L2Squared)
-			nv = f
+			if r.vecKind == "ivf" {
+				nv, _ = comet.NewIVFIndex(1, 2, comet.L2Squared) // trained state comes from the stream
+			} else {
+				nv = r.newVec()
+			}
 		}
 		if r.tx {
 			nt = comet.NewBM25SearchIndex()
@@ -165,7 +182,7 @@ func (r *hyRun) sub() {
 	vec, txt, meta := []int{}, []int{}, []int{}
 	q := "aa bb cc dd"
 	if r.v {
-		rs, _ := r.vecIdx.NewSearch().WithQuery([]float32{1}).WithK(-1).Execute()
+		rs, _ := r.vecIdx.NewSearch().WithQuery([]float32{1}).WithK(-1).WithNProbes(-1).Execute()
 		for _, x := range rs {
 			vec = append(vec, int(x.GetId()))
 		}
@@ -198,6 +215,9 @@ type hyQuery struct {
 func (r *hyRun) search(q hyQuery) {
 	fu, _ := comet.NewFusion(fuseKinds[q.fusion], &comet.FusionConfig{VectorWeight: float64(q.wv) / 2, TextWeight: float64(q.wt) / 2, K: 60})
 	s := r.h.NewSearch().WithK(q.k).WithFusion(fu)
+	if r.vecKind == "ivf" {
+		s = s.WithNProbes(2) // every cluster: exact
+	}
 	if q.qpos != -1 {
 		s = s.WithVector([]float32{float32(q.qpos)})
 	}
@@ -323,6 +343,7 @@ func (r *hyRun) battery() {
 func drvHybrid(args []string) error {
 	cf := newFlags("hybrid")
 	cfgBits := cf.fs.Int("cfg", 7, "configured sub-indexes for generated histories: bit 0 vector, bit 1 text, bit 2 metadata")
+	vecKind := cf.fs.String("vec", "flat", "vector sub-index: flat | ivf (2 clusters, all probed)")
 	cf.fs.Parse(args)
 	t, err := newTrace(*cf.out)
 	if err != nil {
@@ -330,7 +351,7 @@ func drvHybrid(args []string) error {
 	}
 	defer t.close()
 	bm := &bmRun{dict: map[string]int{"aa": 1, "bb": 2, "cc": 3, "dd": 4, " ": 5}}
-	r := &hyRun{t: t, bm: bm, rng: rand.New(rand.NewSource(*cf.seed))}
+	r := &hyRun{t: t, bm: bm, rng: rand.New(rand.NewSource(*cf.seed)), vecKind: *vecKind}
 	words := map[int]string{1: "aa", 2: "bb", 3: "cc", 4: "dd", 5: " "}
 	if *cf.gen != "" {
 		lines, err := readLines(*cf.gen)
